@@ -765,3 +765,5 @@ RULE += (' Added: two first runs through one Cache element alive at the same tim
          'beside the cache file, and the next run replays a completely consumed flow.')
 RULE += (' Added: the consumer of every run changes each received value in place (context keys, '
          'nested lists) before it asks for the next one.')
+
+RULE += (' Round 10: first runs of 1500 / 4000 values with context and 20000 / 70000 bare values (pickled flow of tens to hundreds of kilobytes), complete and interrupted, then replay / recompute / hoist.')
